@@ -484,3 +484,38 @@ package cache
 //@   range 1 invariant [C11.sm.entries] entriesKept() && smValuesAre(c.data, *TraitEntry)
 //@   modifies SM|*
 //@   replay janitor before=before backend:=syncmap
+
+// ---------------------------------------------------------------------------------------------------
+// trait.go: one cleanup cycle (C11 boundary and skip rule, C12 trigger and amount, C18 evict metric)
+// ---------------------------------------------------------------------------------------------------
+
+// DeleteExpired / Len / Evict / EvictionNeeded are function-typed fields: their calls are call-outs
+// ("Trait.DeleteExpired", ...). The backends install deleteExpired / Len / evictLeast there (NewShardedMap etc.).
+
+//@ func (*Trait).invokeCleanup
+//@   props C11 C12
+//@   requires c.Config.DeleteExpiredAfter >= 0 && c.Config.DeleteExpiredAfter <= 1577880000000000000
+//@   requires c.Config.EvictFraction >= 0.0 && c.Config.EvictFraction <= 1.0
+//@   requires c.Config.CountSoftLimit <= 1099511627776
+//@   let scan := c.DeleteExpired != nil && (c.Config.TimeToLive != UnlimitedTTL || old(c.expirationsSet) > 0)
+//@   let frac := c.Config.EvictFraction == 0.0 ? 0.1 : c.Config.EvictFraction
+//@   let counted := c.Evict != nil && c.Config.CountSoftLimit != 0 && c.Len != nil
+//@   let n := res("Trait.Len", 1, 0)
+//@   let L := c.Config.CountSoftLimit
+//@   let co := counted && n > L
+//@   let memLimits := c.Config.HeapInUseSoftLimit != 0 || c.Config.SysMemSoftLimit != 0
+//@   let asked := c.Evict != nil && !co && !memLimits && c.Config.EvictionNeeded != nil
+//@   ensures [C11.boundary] scan ==> calls("Trait.DeleteExpired") == 1
+//@       && arg("Trait.DeleteExpired", 1, 1) == now(1) - c.Config.DeleteExpiredAfter
+//@   ensures [C11.skip] !scan ==> calls("Trait.DeleteExpired") == 0
+//@   ensures [C12.once] calls("Trait.Evict") <= 1 && (c.Evict == nil ==> calls("Trait.Evict") == 0)
+//@   ensures [C12.count.breach] co ==> calls("Trait.Evict") == 1
+//@   ensures [C12.no.breach] c.Evict != nil && !co && !memLimits && c.Config.EvictionNeeded == nil ==> calls("Trait.Evict") == 0
+//@   ensures [C12.needed] asked ==> calls("Config.EvictionNeeded") == 1
+//@       && (calls("Trait.Evict") == 1 <==> res("Config.EvictionNeeded", 1, 0))
+//@   ensures [C12.amount.count] co && n <= 1099511627776 ==>
+//@       abs(real(n) * (1.0 - arg("Trait.Evict", 1, 1)) - real(L) * (1.0 - frac)) <= real(n) / 1125899906842624.0
+//@   ensures [C12.amount.other] calls("Trait.Evict") == 1 && !co ==> arg("Trait.Evict", 1, 1) == frac
+//@   ensures [C18.evict.metric] c.Stat != nil && calls("Trait.Evict") == 1 ==>
+//@       metric(MetricEvict) == old(metric(MetricEvict)) + real(res("Trait.Evict", 1, 0))
+//@   ensures [C18.evict.none] calls("Trait.Evict") == 0 ==> noMetric()
